@@ -393,3 +393,13 @@ func collectLines(r render.Render2, s sdf.SDF2) []*sdf.Line2 {
 	<-done
 	return out
 }
+
+// octreeNodes: lattice nodes the octree marching-cubes renderer can touch for a given cell count (it pads the box by 1 %
+// and rounds the cube count up to a power of two).
+func octreeNodes(cells int) int64 {
+	w := int64(1)
+	for float64(w) < 1.01*float64(cells) {
+		w *= 2
+	}
+	return (w + 1) * (w + 1) * (w + 1)
+}
